@@ -156,7 +156,26 @@ func buildWorkflow(s *spec.Spec) (*sp.Workflow, map[string]*node) {
 					p.InParam(f.Port).FromStr(f.Values...)
 				}
 			}
-			nodes[ps.Name] = &node{proc: p, in: p.In, out: p.Out, inParam: p.InParam, outParam: p.OutParam}
+			// processes with exactly one in-port / out-port are wired through the documented short form In("") /
+			// Out("") when their name has even length (both forms must name the same port)
+			short := len(ps.Name)%2 == 0
+			inF := func(n string) *sp.InPort {
+				if short && len(p.InPorts()) == 1 {
+					if _, ok := p.InPorts()[n]; ok {
+						return p.In("")
+					}
+				}
+				return p.In(n)
+			}
+			outF := func(n string) *sp.OutPort {
+				if short && len(p.OutPorts()) == 1 {
+					if _, ok := p.OutPorts()[n]; ok {
+						return p.Out("")
+					}
+				}
+				return p.Out(n)
+			}
+			nodes[ps.Name] = &node{proc: p, in: inF, out: outF, inParam: p.InParam, outParam: p.OutParam}
 		case spec.KFileSource:
 			p := components.NewFileSource(wf, ps.Name, ps.Files...)
 			nodes[ps.Name] = &node{proc: p, out: func(string) *sp.OutPort { return p.Out() }}
